@@ -274,9 +274,106 @@ func c29body(c c29cfg) func(x *vsched.Exec) {
 	}
 }
 
+
+// c29concurrent: two or three callers stream different replies through a pool of one connection at the same time; one
+// of them may have a failing writer or a cut connection. Every caller that gets bytes gets exactly its own payload,
+// and afterwards the pool hands out a clean connection.
+func c29concurrent(kinds []string, fault string) func(x *vsched.Exec) {
+	return func(x *vsched.Exec) {
+		e := vwNew(func(o *ClientOption, srv *simredis.Server, n *simnet.Net) {
+			o.BlockingPoolSize = 1
+			srv.Do("SET", "k:empty", "")
+			srv.Do("SET", "k:short", "a")
+			srv.Do("SET", "k:crlf", "a\r\nb\r\n")
+			srv.Do("SET", "k:long", strings.Repeat("0123456789", 4)+"xyz")
+			srv.Do("RPUSH", "k:list", "x")
+			srv.Extra["VFLOAT"] = func(*simredis.Ctx) simredis.Reply { return simredis.Double("1.5") }
+			srv.Extra["VCHUNK"] = func(*simredis.Ctx) simredis.Reply { return simredis.Reply{T: '$', Raw: c29chunkedWire} }
+		})
+		if e.err != nil {
+			x.Fail("client setup failed", "%v", e.err)
+			return
+		}
+		type res struct {
+			kind, data string
+			n          int64
+			err        error
+		}
+		results := make([]*res, len(kinds))
+		for i, k := range kinds {
+			i, k := i, k
+			vsched.GoNamed(fmt.Sprintf("s%d", i), func() {
+				argv, _, _ := c29payload(k)
+				b := e.client.B()
+				s := e.client.DoStream(context.Background(), b.Arbitrary(argv[0]).Keys(argv[1:]...).Build())
+				if i == 0 && fault == "cut" && len(e.net.Conns) > 1 {
+					e.net.Conns[len(e.net.Conns)-1].CutAt = 3
+				}
+				w := &c29w{failAt: -1}
+				if i == 0 && fault == "writer" {
+					w.failAt = 1
+				}
+				r := &res{kind: k}
+				for s.HasNext() {
+					r.n, r.err = s.WriteTo(w)
+				}
+				if r.err == nil && s.Error() != nil && s.Error() != io.EOF {
+					r.err = s.Error()
+				}
+				r.data = w.buf.String()
+				results[i] = r
+			})
+		}
+		if x.Run() != vsched.Quiescent {
+			return
+		}
+		for _, cn := range e.net.Conns {
+			cn.CutAt = 0
+		}
+		var out []string
+		for i, r := range results {
+			if r == nil {
+				x.Fail("a streaming caller did not finish", "caller %d", i)
+				return
+			}
+			_, payload, isErr := c29payload(r.kind)
+			out = append(out, fmt.Sprintf("%s=%q/%v", r.kind, r.data, r.err))
+			switch {
+			case r.err == nil:
+				if isErr {
+					x.Fail("nil / error reply was not reported as an error", "caller %d (%s)", i, r.kind)
+				}
+				if r.data != payload {
+					x.Fail("streamed bytes differ from the reply payload", "caller %d (%s) wrote %q want %q; all %v", i, r.kind, r.data, payload, out)
+				}
+			default:
+				if !strings.HasPrefix(payload, r.data) {
+					x.Fail("bytes written before a failure are not a prefix of the payload", "caller %d (%s) wrote %q want a prefix of %q", i, r.kind, r.data, payload)
+				}
+				if !isErr && fault == "none" {
+					x.Fail("streaming failed without a fault", "caller %d (%s): %v", i, r.kind, r.err)
+				}
+			}
+		}
+		x.Outcome = strings.Join(out, " ")
+		if sc, ok := e.client.(*singleClient); ok {
+			if m, ok := sc.conn.(*mux); ok {
+				if m.spool.size != len(m.spool.list) {
+					x.Fail("streaming connection not returned to the pool", "size %d idle %d; %s", m.spool.size, len(m.spool.list), x.Outcome)
+				}
+				for _, w := range m.spool.list {
+					if w.Error() != nil {
+						x.Fail("broken connection kept in the pool", "%v", w.Error())
+					}
+				}
+			}
+		}
+	}
+}
+
 func TestVerif_C29(t *testing.T) {
 	vrun.Main(t, "C29", func(r *vrun.Run) {
-		r.Rule = "DoStream for every reply kind {empty, short, CRLF-containing, 43-byte string, RESP3 streamed (chunked) string, integer, float, nil, error} and DoMultiStream for every pair (thorough: triple) of kinds x fault {none, writer fails at every byte offset, connection cut at every byte offset of the reply stream, context already done} x network read sizes {1 byte, unlimited}; one deterministic execution each plus a follow-up stream on the same pool; oracle: bytes written = payload, nil/error replies are errors, one WriteTo per command then io.EOF, connection back in the pool exactly once and clean"
+		r.Rule = "DoStream for every reply kind {empty, short, CRLF-containing, 43-byte string, RESP3 streamed (chunked) string, integer, float, nil, error} and DoMultiStream for every pair (thorough: triple) of kinds x fault {none, writer fails at every byte offset, connection cut at every byte offset of the reply stream, context already done} x network read sizes {1 byte, unlimited}; one deterministic execution each plus a follow-up stream on the same pool; oracle: bytes written = payload, nil/error replies are errors, one WriteTo per command then io.EOF, connection back in the pool exactly once and clean; plus 2-3 concurrent streaming callers on a pool of one connection (one with a failing writer or a cut connection), all schedules within the preemption/delay bound"
 		var cfgs []c29cfg
 		seqs := [][]string{}
 		for _, a := range c29kinds {
@@ -326,6 +423,17 @@ func TestVerif_C29(t *testing.T) {
 			vexp.Run(r, vexp.Prog{Name: c.name(), NoShard: true, Delay: -1, Budget: vsched.Budget{MaxPreempt: 0}, Opts: vsched.Options{Horizon: 30000}, Body: c29body(c)})
 		}
 		delete(r.Bounds, "programs")
+		// concurrent streamers on a pool of one connection (explored schedules)
+		conc := []struct {
+			kinds []string
+			fault string
+		}{{[]string{"long", "short"}, "none"}, {[]string{"chunked", "int", "nil"}, "none"}, {[]string{"long", "crlf"}, "writer"}, {[]string{"long", "short"}, "cut"}}
+		for ci, cc := range conc {
+			if !r.Mine(len(cfgs) + ci) {
+				continue
+			}
+			vexp.Run(r, vexp.Prog{Name: "concurrent/" + strings.Join(cc.kinds, "|") + "/" + cc.fault, NoShard: true, Delay: 1, Budget: vsched.Budget{MaxPreempt: vrun.Pick(r, 1, 2)}, Opts: vsched.Options{Horizon: 30000}, Body: c29concurrent(cc.kinds, cc.fault), Seconds: vrun.Pick(r, 10.0, 90.0)})
+		}
 		r.Bounds["cases"] = len(cfgs)
 		r.Assume("streamed (chunked) strings are covered at the decoder level by C12; the fake server sends plain RESP3 replies")
 	})
